@@ -16,6 +16,8 @@ def model_check_reader(ctx, prop):
     shapes = [(1, 1, 1, 99)] + ([(1, 2, 1, 99), (2, 1, 2, 1), (1, 1, 1, 2)] if thorough else [])
     for (na, nf, ns, bud) in shapes:
         for devs in ([], READER_DEVS):
+            if devs and not thorough:
+                continue      # Dev = {} is the code as it is now (F3 was repaired by a fix: commit)
             c = B.write_cfg(ctx, "pr.cfg", PR_CFG % (na, nf, ns, bud, B._q(devs), "INVARIANTS " + invs))
             r = tlc.tlc("PeriodicReader", c, rundir=ctx.rundir.path, workers=8, timeout_s=1800 if thorough else 300, xmx="16g", tag="pr")
             name = "PeriodicReader add%d F%d S%d budget%d Dev=%s" % (na, nf, ns, bud, "asimpl" if devs else "{}")
@@ -30,9 +32,9 @@ def model_check_reader(ctx, prop):
                 continue
             tlc.must_ok(r, name)
     if prop == "C02":
-        c = B.write_cfg(ctx, "prl.cfg", PR_CFG % (1 if thorough else 0, 1, 1, 99, B._q(READER_DEVS), "PROPERTY Termination2\nCHECK_DEADLOCK FALSE"))
+        c = B.write_cfg(ctx, "prl.cfg", PR_CFG % (1 if thorough else 0, 1, 1, 99, "", "PROPERTY Termination2\nCHECK_DEADLOCK FALSE"))
         r = tlc.tlc("PeriodicReader", c, rundir=ctx.rundir.path, workers=8, timeout_s=900, xmx="16g", tag="prlive", deadlock=True)
-        ctx.add_tlc("PeriodicReader liveness (as implemented): every ForceFlush/Shutdown returns", r)
+        ctx.add_tlc("PeriodicReader liveness: every ForceFlush/Shutdown returns (weak fairness; the export-timeout timer may always fire)", r)
         if r.status == "temporal":
             ctx.extra.setdefault("model_violations", []).append({"cfg": "PeriodicReader liveness", "invariant": "Termination2"})
         elif r.status not in ("ok", "timeout"):
